@@ -108,7 +108,14 @@ def check(case, ctx):
     ctx.cls('fmt_' + fmt)
     other = [list(t) for t in case['other']]
     ctrl = [list(t) for t in case['ctrl']]
-    M = meta_text(other + ctrl, case['yaml'])
+    # control keys and other keys in a generated order (a control key must not stop the keys after it from being read)
+    import random as _random
+    # (the control keys keep their own relative order: `language` also sets the quotes language, so it matters which of the two comes last)
+    rnd_ = _random.Random(case['perm'] + 7)
+    allkeys, o_, c_ = [], list(other), list(ctrl)
+    while o_ or c_:
+        allkeys.append((o_ if (o_ and (not c_ or rnd_.random() < 0.5)) else c_).pop(0))
+    M = meta_text(allkeys, case['yaml'])
 
     def conv(src, extra=0):
         r = w.convert(src, fmt, ext | extra)
